@@ -51,78 +51,174 @@ pub fn seeds() -> Vec<(&'static str, Vec<u8>)> {
     v
 }
 
-/// run every handler that applies to this kind of input; returns (outcome, detail)
-pub fn feed(kind: &str, b: &[u8]) -> (String, String) {
-    let r = guarded(|| -> &'static str {
-        match kind {
-            "dhcp" => match erbium::dhcp::dhcppkt::parse(b) {
-                Ok(p) => {
-                    // everything the service does with a decoded packet before and while replying
-                    let _ = format!("{:?}", p);
-                    let _ = p.get_client_id();
-                    let _ = p.get_broadcast_flag();
-                    let _ = (p.options.get_serverid(), p.options.get_clientid(), p.options.get_address_request(), p.options.get_messagetype(), p.options.get_hostname());
-                    for (k, v) in p.options.other.iter() {
-                        let _ = format!("{}({})", k, k.get_type().and_then(|x| x.decode(v)).map(|x| format!("{}", x)).unwrap_or_default());
-                    }
-                    let _ = p.serialise();
-                    let mut pool = erbium::dhcp::pool::Pool::new_in_memory().expect("pool");
-                    let conf = erbium::config::Config::default();
-                    let req = erbium::dhcp::DHCPRequest { pkt: p, serverip: "192.0.2.1".parse().unwrap(), ifindex: 1, if_mtu: Some(1500), if_router: None };
-                    match erbium::dhcp::handle_pkt(&mut pool, &req, Default::default(), &conf) {
-                        Ok(rep) => {
-                            let _ = rep.serialise();
-                            "ok"
-                        }
-                        Err(_) => "ok",
-                    }
-                }
-                Err(_) => "err",
-            },
-            "dnsq" | "dnsr" => match erbium::dns::verif::parse(b) {
-                Ok(p) => {
-                    let _ = format!("{:?}", p);
-                    let _ = p.status();
-                    let _ = p.get_expiry();
-                    if let Some(e) = &p.edns {
-                        let _ = e.get_nsid();
-                        let _ = e.get_cookie();
-                        let _ = e.get_extended_dns_error();
-                    }
-                    let _ = p.clone_with_ttl_decrement(0);
-                    let _ = p.serialise();
-                    "ok"
-                }
-                Err(_) => "err",
-            },
-            "rs" | "ra" => match erbium::radv::icmppkt::parse(b) {
-                Ok(p) => {
-                    let _ = format!("{:?}", p);
-                    "ok"
-                }
-                Err(_) => "err",
-            },
-            "lldp" => {
-                use erbium::pktparser::Deserialise as _;
-                match erbium::lldp::lldppkt::LldpPacket::from_wire(&mut erbium::pktparser::Buffer::new(b)) {
-                    Ok(p) => {
-                        let _ = format!("{}", p);
-                        "ok"
-                    }
-                    Err(_) => "err",
-                }
+/// Per-process state of the handlers under test: what a running service keeps between packets.
+pub struct Handlers {
+    rt: tokio::runtime::Runtime,
+    pool: erbium::dhcp::pool::Pool,
+    conf: erbium::config::SharedConfig,
+}
+
+const DHCP_CONF: &str = "addresses: [192.0.2.1/22]\ndns-servers: [192.0.2.53]\ndns-search: [example.com]\n";
+
+impl Handlers {
+    pub fn new() -> Handlers {
+        let rt = tokio::runtime::Builder::new_current_thread().enable_all().start_paused(true).build().unwrap();
+        let pool = erbium::dhcp::pool::Pool::new_in_memory().expect("pool");
+        let conf = erbium::config::verif_load_config_from_string(DHCP_CONF).expect("config");
+        Handlers { rt, pool, conf }
+    }
+
+    /// what DhcpService::recvdhcp does with a datagram, minus the sockets
+    fn dhcp(&mut self, b: &[u8]) -> &'static str {
+        use erbium::dhcp::dhcppkt;
+        let p = match dhcppkt::parse(b) {
+            Ok(p) => p,
+            Err(e) => {
+                let _ = format!("{} {}", e, e.get_variant_name());
+                return "err";
             }
-            _ => {
-                let mut buf = erbium::pktparser::Buffer::new(b);
-                let _ = buf.get_tlv();
-                let _ = buf.get_domains();
+        };
+        fn log_options(p: &dhcppkt::Dhcp) {
+            let _ = String::from_utf8_lossy(&p.options.get_option::<Vec<u8>>(&dhcppkt::OPTION_HOSTNAME).unwrap_or_default()).to_string();
+            for (k, v) in p.options.other.iter().filter(|(k, _)| **k != dhcppkt::OPTION_MSGTYPE && **k != dhcppkt::OPTION_PARAMLIST) {
+                let _ = format!("{k}({})", k.get_type().and_then(|x| x.decode(v)).map(|x| format!("{}", x)).unwrap_or_default());
+            }
+        }
+        // log_pkt
+        let _ = p.options.get_messagetype().map(|x| x.to_string());
+        log_options(&p);
+        let _ = p.options.get_option::<Vec<u8>>(&dhcppkt::OPTION_PARAMLIST)
+            .map(|v| v.iter().map(|&x| dhcppkt::DhcpOption::new(x)).map(|o| o.to_string()).collect::<Vec<String>>().join(" "));
+        let _ = format!("{:?}", p);
+        let _ = p.get_client_id();
+        let req = erbium::dhcp::DHCPRequest { pkt: p, serverip: "192.0.2.1".parse().unwrap(), ifindex: 1, if_mtu: Some(1500), if_router: None };
+        let conf = self.conf.clone();
+        let lockedconf = self.rt.block_on(conf.read());
+        match erbium::dhcp::handle_pkt(&mut self.pool, &req, Default::default(), &lockedconf) {
+            Ok(reply) => {
+                let _ = reply.options.get_serverid();
+                let _ = reply.options.get_messagetype().map(|x| x.to_string());
+                let _ = reply.options.get_option::<u32>(&dhcppkt::OPTION_LEASETIME);
+                log_options(&reply);
+                if let Some(chaddr) = erbium::dhcp::verif_reply_hwaddr(&reply.chaddr) {
+                    use erbium_net::addr::WithPort as _;
+                    let _ = req.pkt.get_broadcast_flag();
+                    let replybuf = reply.serialise();
+                    let src: std::net::Ipv4Addr = "192.0.2.1".parse().unwrap();
+                    let _ = erbium_net::packet::Fragment::new_udp4(
+                        *src.with_port(67).as_sockaddr_in().unwrap(),
+                        &[2, 0, 0, 0, 0, 9],
+                        *reply.yiaddr.with_port(68).as_sockaddr_in().unwrap(),
+                        &chaddr,
+                        erbium_net::packet::Tail::Payload(&replybuf),
+                    )
+                    .flatten();
+                }
+                "ok"
+            }
+            Err(e) => {
+                let _ = format!("{}", e);
                 "ok"
             }
         }
-    });
-    match r {
-        Ok(o) => (o.to_string(), String::new()),
-        Err(p) => ("panic".to_string(), p),
+    }
+
+    /// decode + everything the listener and the cache do with a decoded message that needs no socket
+    fn dns(&mut self, b: &[u8], reply: bool) -> &'static str {
+        let p = match erbium::dns::verif::parse(b) {
+            Ok(p) => p,
+            Err(_) => return "err",
+        };
+        let _ = format!("{:?}", p);
+        let _ = p.status();
+        let _ = p.get_expiry();
+        if let Some(e) = &p.edns {
+            let _ = e.get_nsid();
+            let _ = e.get_cookie();
+            let _ = e.get_extended_dns_error();
+        }
+        let _ = p.serialise();
+        for size in [512usize, 513, 1232, 65535] {
+            let _ = p.serialise_with_size(size);
+        }
+        if reply {
+            // what the cache does with an upstream reply, now and later
+            self.rt.block_on(async {
+                let cache = erbium::dns::verif::VerifCache::new();
+                let _ = cache.insert(&p, &p).await;
+                for step in [0u64, 1, 5, 60, 3600, 86400] {
+                    tokio::time::advance(std::time::Duration::from_secs(step)).await;
+                    let _ = cache.lookup(&p).await;
+                }
+                let _ = cache.expire().await;
+            });
+        }
+        "ok"
+    }
+
+    /// run every handler that applies to this kind of input; returns (outcome, detail)
+    pub fn feed(&mut self, kind: &str, b: &[u8]) -> (String, String) {
+        let r = guarded(|| -> &'static str {
+            match kind {
+                "dhcp" => self.dhcp(b),
+                "dnsq" => self.dns(b, false),
+                "dnsr" => self.dns(b, true),
+                "rs" | "ra" => match erbium::radv::icmppkt::parse(b) {
+                    Ok(p) => {
+                        let _ = format!("{:?}", p);
+                        "ok"
+                    }
+                    Err(_) => "err",
+                },
+                "lldp" => {
+                    use erbium::pktparser::Deserialise as _;
+                    match erbium::lldp::lldppkt::LldpPacket::from_wire(&mut erbium::pktparser::Buffer::new(b)) {
+                        Ok(p) => {
+                            let _ = format!("{} {:?}", p, p);
+                            "ok"
+                        }
+                        Err(_) => "err",
+                    }
+                }
+                _ => "err",
+            }
+        });
+        match r {
+            Ok(o) => (o.to_string(), String::new()),
+            Err(p) => ("panic".to_string(), p),
+        }
+    }
+
+    /// a valid request must still be served: DISCOVER -> a reply with an address, query -> decoded and cacheable
+    pub fn probe(&mut self, kind: &str) -> (bool, String) {
+        let seeds = seeds();
+        let seed = |k: &str| seeds.iter().find(|s| s.0 == k).unwrap().1.clone();
+        let r = guarded(|| match kind {
+            "dhcp" => {
+                let p = erbium::dhcp::dhcppkt::parse(&seed("dhcp")).map_err(|e| e.to_string())?;
+                let req = erbium::dhcp::DHCPRequest { pkt: p, serverip: "192.0.2.1".parse().unwrap(), ifindex: 1, if_mtu: Some(1500), if_router: None };
+                let conf = self.conf.clone();
+                let lockedconf = self.rt.block_on(conf.read());
+                let reply = erbium::dhcp::handle_pkt(&mut self.pool, &req, Default::default(), &lockedconf).map_err(|e| e.to_string())?;
+                if reply.yiaddr.is_unspecified() { Err("no address".to_string()) } else { Ok(()) }
+            }
+            _ => {
+                let p = erbium::dns::verif::parse(&seed("dnsr"))?;
+                self.rt.block_on(async {
+                    let cache = erbium::dns::verif::VerifCache::new();
+                    let _ = cache.insert(&p, &p).await;
+                    match cache.lookup(&p).await {
+                        Some(Ok(_)) => Ok(()),
+                        _ => Err("not cached".to_string()),
+                    }
+                })
+            }
+        });
+        match r {
+            Ok(Ok(())) => (true, String::new()),
+            Ok(Err(e)) => (false, e),
+            Err(p) => (false, p),
+        }
     }
 }
 
@@ -135,70 +231,320 @@ fn body(len: usize, fill: &str) -> Vec<u8> {
     }
 }
 
+fn ptr(at: usize) -> [u8; 2] {
+    [0xc0 | ((at >> 8) as u8 & 0x3f), at as u8]
+}
+
+/// A DNS message assembled around hostile parts.  `tail` is appended after the records and is
+/// not counted anywhere (helper names that pointers refer to live there).
+pub struct DnsParts {
+    pub qname: Vec<u8>,
+    pub secs: [Vec<Vec<u8>>; 3],
+    pub tail: Vec<u8>,
+    pub cut_after: Option<usize>, // truncate the message at this absolute offset
+}
+
+impl DnsParts {
+    pub fn new() -> DnsParts {
+        DnsParts { qname: vec![1, b'h', 7, b'e', b'x', b'a', b'm', b'p', b'l', b'e', 0], secs: Default::default(), tail: vec![], cut_after: None }
+    }
+    /// offset at which the next record of section `s` would start
+    pub fn offset_of_next(&self, s: usize) -> usize {
+        12 + self.qname.len() + 4 + self.secs.iter().take(s + 1).map(|v| v.iter().map(|r| r.len()).sum::<usize>()).sum::<usize>()
+    }
+    pub fn records_len(&self) -> usize {
+        self.secs.iter().map(|v| v.iter().map(|r| r.len()).sum::<usize>()).sum()
+    }
+    /// everything after the question (for a scripted upstream that copies the client's question)
+    pub fn after_question(&self) -> Vec<u8> {
+        let mut b = vec![];
+        for s in &self.secs {
+            for r in s {
+                b.extend(r);
+            }
+        }
+        b.extend(&self.tail);
+        b
+    }
+    pub fn counts(&self) -> [u16; 3] {
+        [self.secs[0].len() as u16, self.secs[1].len() as u16, self.secs[2].len() as u16]
+    }
+    pub fn bytes(&self, id: u16, flags: u16) -> Vec<u8> {
+        let mut b = vec![];
+        b.extend(id.to_be_bytes());
+        b.extend(flags.to_be_bytes());
+        b.extend(1u16.to_be_bytes());
+        for c in self.counts() {
+            b.extend(c.to_be_bytes());
+        }
+        b.extend(&self.qname);
+        b.extend([0, 1, 0, 1]);
+        b.extend(self.after_question());
+        if let Some(n) = self.cut_after {
+            b.truncate(n);
+        }
+        b
+    }
+}
+
+fn record(owner: &[u8], rtype: u16, rdlen: u16, rdata: &[u8]) -> Vec<u8> {
+    let mut r = owner.to_vec();
+    r.extend(rtype.to_be_bytes());
+    r.extend(1u16.to_be_bytes());
+    r.extend(60u32.to_be_bytes());
+    r.extend(rdlen.to_be_bytes());
+    r.extend(rdata);
+    r
+}
+
+/// the octets of a hostile name that will sit at absolute offset `at`; `helper_at` is where the
+/// message's uncounted tail starts (helper names go there); returns (name octets, tail octets, cut)
+fn name_shape(shape: &str, at: usize, helper_at: usize) -> (Vec<u8>, Vec<u8>, bool) {
+    let mut n = vec![];
+    let mut tail = vec![];
+    let mut cut = false;
+    match shape {
+        "self" => n.extend(ptr(at)),
+        "loop1" => {
+            n.extend([3, b'w', b'w', b'w']);
+            n.extend(ptr(at));
+        }
+        "loop2" => {
+            n.extend([1, b'a', 1, b'b']);
+            n.extend(ptr(at + 2));
+        }
+        "loop3" => {
+            n.extend([1, b'a']);
+            n.extend(ptr(helper_at));
+            tail.extend([1, b'b']);
+            tail.extend(ptr(at));
+        }
+        "fwd" => {
+            n.extend(ptr(helper_at));
+            tail.extend([3, b'f', b'w', b'd', 0]);
+        }
+        "hdrptr" => n.extend(ptr(0)),
+        "oob" => n.extend(ptr(0x3fff)),
+        s if s.starts_with("chain") => {
+            let depth: usize = s[5..].parse().unwrap();
+            tail.extend([1, b'z', 0]);
+            let mut last = helper_at;
+            for _ in 1..depth {
+                let here = helper_at + tail.len();
+                tail.extend(ptr(last));
+                last = here;
+            }
+            n.extend(ptr(last));
+        }
+        "label63" => {
+            n.push(63);
+            n.extend([b'a'; 63]);
+            n.push(0);
+        }
+        "label64" => {
+            n.push(64);
+            n.extend([b'a'; 64]);
+            n.push(0);
+        }
+        "label128" => {
+            n.push(128);
+            n.extend([b'a'; 128]);
+            n.push(0);
+        }
+        "name255" | "name256" | "name1000" => {
+            let want: usize = shape[4..].parse().unwrap();
+            while n.len() + 1 < want {
+                let l = (want - 1 - n.len() - 1).min(63);
+                if l == 0 {
+                    break;
+                }
+                n.push(l as u8);
+                n.extend(vec![b'n'; l]);
+            }
+            n.push(0);
+        }
+        "runsout" => {
+            n.extend([10, b'a', b'b']);
+            cut = true;
+        }
+        "halfptr" => {
+            n.push(0xc0);
+            cut = true;
+        }
+        "empty" => n.push(0),
+        "ptrtoroot" => n.extend(ptr(12 + 10)), // the root label of the default question name
+        "ptrtoqtype" => n.extend(ptr(12 + 11)),
+        _ => n.push(0),
+    }
+    (n, tail, cut)
+}
+
 /// consistent packets from a grammar case: returns (handler kind, bytes) pairs
-fn build(c: &Value) -> Vec<(&'static str, Vec<u8>)> {
-    let a = &c["a"];
-    let fmt = a["fmt"].as_str().unwrap_or("");
+pub fn build(c: &Value) -> Vec<(&'static str, Vec<u8>)> {
+    let fmt = c["fmt"].as_str().unwrap_or("");
+    let k = c["k"].as_str().unwrap_or("");
     let seeds = seeds();
     let seed = |k: &str| seeds.iter().find(|s| s.0 == k).unwrap().1.clone();
+    let u = |f: &str| c[f].as_u64().unwrap_or(0) as usize;
+    let st = |f: &str| c[f].as_str().unwrap_or("");
     let mut out = vec![];
-    match fmt {
-        "dhcp" => {
-            let (code, len) = (a["code"].as_u64().unwrap() as u8, a["len"].as_u64().unwrap() as usize);
+    match (k, fmt) {
+        ("item", "dhcp") => {
+            let (code, len) = (u("code") as u8, u("len"));
             let mut b = seed("dhcp")[..240].to_vec();
             b.extend([53, 1, 1]);
             b.push(code);
             b.push(len as u8);
-            b.extend(body(len, a["fill"].as_str().unwrap()));
-            b.extend([55, 3, 1, 3, code, 255]);
+            b.extend(body(len, st("fill")));
+            if st("lie") == "over" {
+                // the option's length runs past the end of the packet
+                let n = b.len() - len.div_ceil(2);
+                b.truncate(n);
+            } else {
+                b.extend([55, 3, 1, 3, code, 255]);
+            }
             out.push(("dhcp", b));
         }
-        "edns" => {
-            let (code, len) = (a["code"].as_u64().unwrap() as u16, a["len"].as_u64().unwrap() as usize);
-            let q = build_query(7, true, false, false, &[b"x".to_vec(), b"example".to_vec()], 1, 1, Some((1232, false, vec![(code, body(len, a["fill"].as_str().unwrap()))])));
+        ("pair", "dhcp") => {
+            let mut b = seed("dhcp")[..240].to_vec();
+            let area = |n: usize| -> Vec<u8> {
+                match st("area") {
+                    "zero" => vec![0; n],
+                    "ff" => vec![0xff; n],
+                    "opts" => {
+                        let mut v = vec![12, 3, b'a', b'b', b'c', 61, 3, 1, 2, 3, 255];
+                        v.resize(n, 0);
+                        v
+                    }
+                    _ => {
+                        // options up to the very edge of the field, no end marker
+                        let mut v = vec![];
+                        while v.len() + 6 <= n {
+                            v.extend([12, 4, b'w', b'x', b'y', b'z']);
+                        }
+                        let rest = n - v.len();
+                        if rest >= 2 {
+                            v.push(61);
+                            v.push((rest - 2) as u8);
+                            v.extend(vec![7; rest - 2]);
+                        } else {
+                            v.resize(n, 12);
+                        }
+                        v
+                    }
+                }
+            };
+            let sname = area(64);
+            let file = area(128);
+            b[44..108].copy_from_slice(&sname);
+            b[108..236].copy_from_slice(&file);
+            b.extend([53, 1, 1]);
+            for (cf, lf) in [("c1", "l1"), ("c2", "l2")] {
+                let code = u(cf) as u8;
+                b.push(code);
+                if code != 0 && code != 255 {
+                    b.push(u(lf) as u8);
+                    b.extend(body(u(lf), "inc"));
+                }
+            }
+            if u("over") > 0 {
+                b.extend([52, 1, u("over") as u8]);
+            }
+            b.push(255);
+            out.push(("dhcp", b));
+        }
+        ("item", "edns") => {
+            let (code, len) = (u("code") as u16, u("len"));
+            let mut q = build_query(7, true, false, false, &[b"x".to_vec(), b"example".to_vec()], 1, 1, Some((1232, false, vec![(code, body(len, st("fill")))])));
+            let n = q.len();
+            // the option's own length field is the last-but-body 2 octets
+            let lpos = n - len - 2;
+            match st("lie") {
+                "over" => {
+                    let v = (len as u16 + 9).to_be_bytes();
+                    q[lpos] = v[0];
+                    q[lpos + 1] = v[1];
+                }
+                "under" => {
+                    let v = (len as u16 / 2).to_be_bytes();
+                    q[lpos] = v[0];
+                    q[lpos + 1] = v[1];
+                }
+                _ => {}
+            }
             out.push(("dnsq", q.clone()));
             let mut r = q;
             r[2] |= 0x80; // the same as a reply from upstream
             out.push(("dnsr", r));
         }
-        "nd" => {
-            let (code, len) = (a["code"].as_u64().unwrap() as u8, a["len"].as_u64().unwrap() as usize);
+        ("item", "nd") => {
+            let (code, len) = (u("code") as u8, u("len"));
             for (k, hdr) in [("rs", vec![133u8, 0, 0, 0, 0, 0, 0, 0]), ("ra", vec![134u8, 0, 0, 0, 64, 0, 7, 8, 0, 0, 0, 0, 0, 0, 0, 0])] {
                 let mut b = hdr;
                 b.push(code);
-                b.push(((2 + len) / 8) as u8);
-                if len > 0 {
-                    b.extend(body(len, a["fill"].as_str().unwrap()));
-                }
+                b.push(if len == 0 { 0 } else { ((2 + len) / 8) as u8 } + if st("lie") == "over" { 3 } else { 0 });
+                b.extend(body(len, st("fill")));
                 out.push((k, b));
             }
         }
-        "lldp" => {
-            let (code, len) = (a["code"].as_u64().unwrap() as u16, a["len"].as_u64().unwrap() as usize);
+        ("item", "lldp") => {
+            let (code, len) = (u("code") as u16, u("len"));
             let mut b = vec![0x02, 7, 4, 2, 0, 0, 0, 0, 1, 0x04, 4, 5, b'e', b't', b'h', 0x06, 2, 0, 120];
             let tl: u16 = (code << 9) | (len as u16 & 0x1ff);
             b.extend(tl.to_be_bytes());
-            b.extend(body(len, a["fill"].as_str().unwrap()));
+            if st("lie") == "over" {
+                b.extend(body(len / 2, st("fill")));
+            } else {
+                b.extend(body(len, st("fill")));
+                b.extend([0, 0]);
+            }
+            out.push(("lldp", b));
+        }
+        ("mgmt", "lldp") => {
+            let (alen, olen) = (u("alen"), u("olen"));
+            let mut v = vec![alen as u8];
+            v.extend((0..alen).map(|i| if i == 0 { 1 } else { i as u8 }));
+            v.push(2);
+            v.extend([0, 0, 0, 3]);
+            v.push(olen as u8);
+            v.extend(vec![0x2b; olen]);
+            let mut declared = v.len();
+            match st("lie") {
+                "over" => declared += 5,
+                "under" => declared -= declared.min(3),
+                _ => {}
+            }
+            if declared > 511 {
+                declared = 511;
+            }
+            if v.len() > 511 {
+                v.truncate(511);
+            }
+            let mut b = vec![0x02, 7, 4, 2, 0, 0, 0, 0, 1, 0x04, 4, 5, b'e', b't', b'h', 0x06, 2, 0, 120];
+            let tl: u16 = (8 << 9) | (declared as u16 & 0x1ff);
+            b.extend(tl.to_be_bytes());
+            b.extend(v);
             b.extend([0, 0]);
             out.push(("lldp", b));
         }
-        "dhcphdr" => {
+        ("hdr", "dhcphdr") => {
             let mut b = seed("dhcp");
-            let v = a["val"].as_u64().unwrap() as u8;
-            match a["field"].as_str().unwrap() {
+            let v = u("val") as u8;
+            match st("field") {
                 "op" => b[0] = v,
                 "htype" => b[1] = v,
                 "hlen" => b[2] = v,
                 "hops" => b[3] = v,
+                "flags" => b[10] = v,
                 _ => b[236] = v,
             }
             out.push(("dhcp", b));
         }
-        "dnshdr" => {
+        ("hdr", "dnshdr") => {
             for k in ["dnsq", "dnsr"] {
                 let mut b = seed(k);
-                let v = (a["val"].as_u64().unwrap() as u16).to_be_bytes();
-                let off = match a["field"].as_str().unwrap() {
+                let v = (u("val") as u16).to_be_bytes();
+                let off = match st("field") {
                     "flags" => 2,
                     "qdcount" => 4,
                     "ancount" => 6,
@@ -210,82 +556,274 @@ fn build(c: &Value) -> Vec<(&'static str, Vec<u8>)> {
                 out.push((k, b));
             }
         }
+        ("hdr", "ndhdr") => {
+            for k in ["rs", "ra"] {
+                let mut b = seed(k);
+                let v = u("val") as u8;
+                match st("field") {
+                    "type" => b[0] = v,
+                    "code" => b[1] = v,
+                    "hop" => b[4] = v,
+                    _ => b[5] = v,
+                }
+                out.push((k, b));
+            }
+        }
+        (_, "dns") => {
+            if let Some(p) = dns_parts(c) {
+                out.push(("dnsq", p.bytes(0x0707, 0x0100)));
+                out.push(("dnsr", p.bytes(0x0707, 0x8180)));
+            }
+        }
         _ => {}
     }
     out
 }
 
-fn apply(seed: &[u8], m: &Value) -> Option<Vec<u8>> {
-    let mut b = seed.to_vec();
-    match m["op"].as_str()? {
-        "set" => {
-            // write `val` (width 1, 2 or 4 octets, big endian) at offset
-            let off = m["off"].as_u64()? as usize;
-            let w = m["w"].as_u64()? as usize;
-            let val = m["val"].as_u64()?;
-            if off + w > b.len() {
-                return None;
-            }
-            for i in 0..w {
-                b[off + i] = (val >> (8 * (w - 1 - i))) as u8;
+/// the hostile parts of a DNS grammar case (kinds name / rr / opt)
+pub fn dns_parts(c: &Value) -> Option<DnsParts> {
+    let k = c["k"].as_str()?;
+    let u = |f: &str| c[f].as_u64().unwrap_or(0) as usize;
+    let st = |f: &str| c[f].as_str().unwrap_or("");
+    let mut p = DnsParts::new();
+    let back = ptr(12).to_vec(); // a well-behaved owner: pointer to the question name
+    match k {
+        "name" => {
+            let pos = st("pos");
+            let shape = st("shape");
+            // a harmless record in front so that non-question positions are not first
+            let filler = record(&back, 1, 4, &[192, 0, 2, 7]);
+            let (sec, pre, post, rtype): (usize, Vec<u8>, Vec<u8>, u16) = match pos {
+                "qname" => (9, vec![], vec![], 0),
+                "owner-an" => (0, vec![], vec![], 1),
+                "owner-ns" => (1, vec![], vec![], 1),
+                "owner-ar" => (2, vec![], vec![], 1),
+                "cname" => (0, vec![], vec![], 5),
+                "ns" => (1, vec![], vec![], 2),
+                "ptr" => (0, vec![], vec![], 12),
+                "mx" => (0, vec![0, 10], vec![], 15),
+                "afsdb" => (0, vec![0, 1], vec![], 18),
+                "rt" => (0, vec![0, 1], vec![], 21),
+                "soa-mname" => (1, vec![], [vec![0], vec![0; 20]].concat(), 6),
+                "soa-rname" => (1, vec![0], vec![0; 20], 6),
+                "rp-mbox" => (0, vec![], vec![0], 17),
+                "rp-txt" => (0, vec![0], vec![], 17),
+                _ => (0, vec![0, 1, 0, 1, 0, 0, 0], vec![], 35), // naptr
+            };
+            if pos == "qname" {
+                let helper_at = 12; // placeholder, fixed below once the length is known
+                let (n0, _, _) = name_shape(shape, 12, helper_at);
+                let helper_at = 12 + n0.len() + 4;
+                let (n, tail, cut) = name_shape(shape, 12, helper_at);
+                p.qname = n;
+                p.tail = tail;
+                if cut {
+                    p.cut_after = Some(12 + p.qname.len());
+                }
+            } else if pos.starts_with("owner") {
+                p.secs[0].push(filler);
+                let at = p.offset_of_next(sec);
+                let (n0, _, _) = name_shape(shape, at, at);
+                let helper_at = at + n0.len() + 10 + 4;
+                let (n, tail, cut) = name_shape(shape, at, helper_at);
+                p.secs[sec].push(record(&n, rtype, 4, &[192, 0, 2, 1]));
+                p.tail = tail;
+                if cut {
+                    p.cut_after = Some(at + n.len());
+                }
+            } else {
+                p.secs[0].push(filler);
+                let at = p.offset_of_next(sec) + back.len() + 10 + pre.len();
+                let (n0, _, _) = name_shape(shape, at, at);
+                let helper_at = at + n0.len() + post.len();
+                let (n, tail, cut) = name_shape(shape, at, helper_at);
+                let rdata = [pre.clone(), n.clone(), post.clone()].concat();
+                p.secs[sec].push(record(&back, rtype, rdata.len() as u16, &rdata));
+                p.tail = tail;
+                if cut {
+                    p.cut_after = Some(at + n.len());
+                }
             }
         }
-        "trunc" => {
-            let n = m["n"].as_u64()? as usize;
-            if n > b.len() {
-                return None;
+        "rr" => {
+            let sec = match st("sec") {
+                "an" => 0,
+                "ns" => 1,
+                _ => 2,
+            };
+            let len = u("len");
+            let declared = match st("lie") {
+                "over" => len + 7,
+                "under" => len / 2,
+                _ => len,
+            };
+            p.secs[sec].push(record(&back, u("rtype") as u16, declared as u16, &body(len, st("fill"))));
+            if st("lie") == "exact" {
+                // something valid behind it, so that a mis-sized typed decoder shows up
+                p.secs[2].push(record(&[0], 41, 0, &[])); // class/ttl of an OPT are free-form
             }
-            b.truncate(n);
         }
-        "dup" => {
-            let off = m["off"].as_u64()? as usize;
-            let n = m["n"].as_u64()? as usize;
-            if off + n > b.len() {
-                return None;
-            }
-            let seg = b[off..off + n].to_vec();
-            for (i, x) in seg.iter().enumerate() {
-                b.insert(off + i, *x);
+        "opt" => {
+            let owner: Vec<u8> = match st("owner") {
+                "root" => vec![0],
+                "name" => vec![1, b'o', 0],
+                _ => back.clone(),
+            };
+            let mut r = owner;
+            r.extend(41u16.to_be_bytes());
+            r.extend((u("size") as u16).to_be_bytes());
+            r.push(u("ercode") as u8);
+            r.push(u("version") as u8);
+            r.extend([0x80, 0]);
+            r.extend([0, 0]);
+            match st("where") {
+                "an" => p.secs[0].push(r),
+                "ns" => p.secs[1].push(r),
+                "twice" => {
+                    p.secs[2].push(r.clone());
+                    p.secs[2].push(r);
+                }
+                _ => p.secs[2].push(r),
             }
         }
         _ => return None,
     }
-    Some(b)
+    Some(p)
+}
+
+/// `ingest-child`: one line in ("feed <kind> <hex>" / "probe <kind>"), one JSON line out.  Runs in
+/// its own process because a stack overflow or an abort cannot be caught in-process.
+pub fn child_main(_args: &[String]) {
+    use std::io::{BufRead, Write};
+    quiet_panics();
+    let mut h = Handlers::new();
+    let stdin = std::io::stdin();
+    let stdout = std::io::stdout();
+    for line in stdin.lock().lines() {
+        let line = match line {
+            Ok(l) => l,
+            Err(_) => break,
+        };
+        let mut it = line.split(' ');
+        let cmd = it.next().unwrap_or("");
+        let kind = it.next().unwrap_or("");
+        let v = if cmd == "probe" {
+            let (ok, d) = h.probe(kind);
+            json!({"answered": ok, "detail": d})
+        } else {
+            let b = unhex(it.next().unwrap_or(""));
+            let (o, d) = h.feed(kind, &b);
+            json!({"outcome": o, "detail": d})
+        };
+        let mut out = stdout.lock();
+        let _ = writeln!(out, "{}", v);
+        let _ = out.flush();
+    }
+}
+
+fn unhex(s: &str) -> Vec<u8> {
+    (0..s.len() / 2).map(|i| u8::from_str_radix(&s[2 * i..2 * i + 2], 16).unwrap_or(0)).collect()
+}
+
+struct Worker {
+    child: std::process::Child,
+    stdin: std::process::ChildStdin,
+    rx: std::sync::mpsc::Receiver<String>,
+    errlog: String,
+    pub restarts: usize,
+}
+
+impl Worker {
+    fn spawn(errlog: &str) -> Worker {
+        use std::io::BufRead;
+        let err = std::fs::File::create(errlog).expect("errlog");
+        let mut child = std::process::Command::new(std::env::current_exe().unwrap())
+            .arg("ingest-child")
+            .stdin(std::process::Stdio::piped())
+            .stdout(std::process::Stdio::piped())
+            .stderr(err)
+            .spawn()
+            .expect("spawn ingest-child");
+        let stdin = child.stdin.take().unwrap();
+        let stdout = child.stdout.take().unwrap();
+        let (tx, rx) = std::sync::mpsc::channel();
+        std::thread::spawn(move || {
+            for l in std::io::BufReader::new(stdout).lines() {
+                match l {
+                    Ok(l) => {
+                        if tx.send(l).is_err() {
+                            break;
+                        }
+                    }
+                    Err(_) => break,
+                }
+            }
+        });
+        Worker { child, stdin, rx, errlog: errlog.to_string(), restarts: 0 }
+    }
+
+    /// one request; a dead or stuck child is an outcome
+    fn call(&mut self, line: &str) -> Value {
+        use std::io::Write;
+        let sent = writeln!(self.stdin, "{}", line).and_then(|_| self.stdin.flush());
+        let r = if sent.is_ok() { self.rx.recv_timeout(std::time::Duration::from_secs(20)) } else { Err(std::sync::mpsc::RecvTimeoutError::Disconnected) };
+        match r {
+            Ok(l) => serde_json::from_str(&l).unwrap_or(json!({"outcome":"garbled","answered":false,"detail":l})),
+            Err(e) => {
+                let hung = matches!(e, std::sync::mpsc::RecvTimeoutError::Timeout);
+                if hung {
+                    let _ = self.child.kill();
+                }
+                let status = self.child.wait().map(|s| format!("{}", s)).unwrap_or_default();
+                let mut tail = std::fs::read_to_string(&self.errlog).unwrap_or_default();
+                if tail.len() > 300 {
+                    tail = tail[tail.len() - 300..].to_string();
+                }
+                let errlog = self.errlog.clone();
+                let restarts = self.restarts + 1;
+                *self = Worker::spawn(&errlog);
+                self.restarts = restarts;
+                json!({"outcome": if hung { "hang" } else { "abort" }, "answered": false, "detail": format!("{} {}", status, tail.replace('\n', " "))})
+            }
+        }
+    }
 }
 
 pub fn main(args: &[String]) {
     let cases = read_ndjson(&arg(args, "--cases").expect("--cases"));
-    let mut out = Trace::create(&arg(args, "--out").expect("--out"));
+    let outp = arg(args, "--out").expect("--out");
+    let mut out = Trace::create(&outp);
     let mut rng = Rng::new(arg_u64(args, "--seed", 1));
     let nrand = arg_u64(args, "--rand", 2000);
-    quiet_panics();
+    let mut w = Worker::spawn(&format!("{}.child-stderr", outp));
     let seeds = seeds();
-    let seed_of = |k: &str| seeds.iter().find(|s| s.0 == k).map(|s| s.1.clone());
+    let mut nfeeds = 0u64;
+    let mut feed = |w: &mut Worker, out: &mut Trace, k: &str, b: &[u8], genv: Value| {
+        let r = w.call(&format!("feed {} {}", k, hex(b)));
+        let o = r["outcome"].as_str().unwrap_or("garbled").to_string();
+        let bad = o != "ok" && o != "err";
+        out.emit(json!({"ev":"feed","h":k,"gen":genv,"len":b.len(),"outcome":o,"detail":r["detail"],"bytes": if bad { json!(hex(b)) } else { json!("") }}));
+        nfeeds += 1;
+        if nfeeds % 500 == 0 {
+            for pk in ["dhcp", "dns"] {
+                let r = w.call(&format!("probe {}", pk));
+                out.emit(json!({"ev":"probe","h":pk,"after":nfeeds,"answered":r["answered"],"detail":r["detail"]}));
+            }
+        }
+    };
     for (k, s) in &seeds {
-        let (o, d) = feed(k, s);
-        out.emit(json!({"ev":"feed","h":k,"gen":{"kind":"seed"},"len":s.len(),"outcome":o,"detail":d}));
+        feed(&mut w, &mut out, k, s, json!({"k":"seed"}));
     }
     // (a) grammar-derived structured cases (spec/WireGrammar.tla)
     for c in &cases {
         for (k, b) in build(c) {
-            let (o, d) = feed(k, &b);
-            out.emit(json!({"ev":"feed","h":k,"gen":c,"len":b.len(),"outcome":o,"detail":d,"bytes": if o == "panic" { json!(hex(&b)) } else { json!("") }}));
+            feed(&mut w, &mut out, k, &b, c.clone());
         }
     }
-    for c in cases.iter().filter(|c| c["fmt"].is_string()) {
-        let k = c["fmt"].as_str().unwrap();
-        if let Some(seed) = seed_of(k)
-            && let Some(b) = apply(&seed, c)
-        {
-            let (o, d) = feed(k, &b);
-            out.emit(json!({"ev":"feed","h":k,"gen":c,"len":b.len(),"outcome":o,"detail":d,"bytes": if o == "panic" { json!(hex(&b)) } else { json!("") }}));
-        }
-    }
-    // (b) every truncation point and every single-octet boundary value at every offset of every seed
+    // (b) every truncation point and boundary values at every offset of every seed
     for (k, s) in &seeds {
         for n in 0..s.len() {
-            let (o, d) = feed(k, &s[..n]);
-            out.emit(json!({"ev":"feed","h":k,"gen":{"kind":"trunc","n":n},"len":n,"outcome":o,"detail":d,"bytes": if o == "panic" { json!(hex(&s[..n])) } else { json!("") }}));
+            feed(&mut w, &mut out, k, &s[..n], json!({"k":"trunc","n":n}));
         }
         for off in 0..s.len() {
             for val in [0u8, 1, 0x3f, 0x40, 0x7f, 0x80, 0xbf, 0xc0, 0xfe, 0xff] {
@@ -294,14 +832,11 @@ pub fn main(args: &[String]) {
                 }
                 let mut b = s.clone();
                 b[off] = val;
-                let (o, d) = feed(k, &b);
-                if o == "panic" || (off * 7 + val as usize) % 16 == 0 {
-                    out.emit(json!({"ev":"feed","h":k,"gen":{"kind":"octet","off":off,"val":val},"len":b.len(),"outcome":o,"detail":d,"bytes": if o == "panic" { json!(hex(&b)) } else { json!("") }}));
-                }
+                feed(&mut w, &mut out, k, &b, json!({"k":"octet","off":off,"val":val}));
             }
         }
     }
-    // (c) random byte strings and random multi-mutations
+    // (c) random byte strings and random multi-mutations of the seeds
     for i in 0..nrand {
         let (k, s) = &seeds[(i % seeds.len() as u64) as usize];
         let b = if i % 3 == 0 {
@@ -322,11 +857,13 @@ pub fn main(args: &[String]) {
             }
             b
         };
-        let (o, d) = feed(k, &b);
-        if o == "panic" || i % 8 == 0 {
-            out.emit(json!({"ev":"feed","h":k,"gen":{"kind":"rand","i":i},"len":b.len(),"outcome":o,"detail":d,"bytes": if o == "panic" { json!(hex(&b)) } else { json!("") }}));
-        }
+        feed(&mut w, &mut out, k, &b, json!({"k":"rand","i":i}));
     }
+    for pk in ["dhcp", "dns"] {
+        let r = w.call(&format!("probe {}", pk));
+        out.emit(json!({"ev":"probe","h":pk,"after":nfeeds,"answered":r["answered"],"detail":r["detail"]}));
+    }
+    let _ = w.child.kill();
     let n = out.finish();
-    eprintln!("ingest: {} events", n);
+    eprintln!("ingest: {} events, {} child restarts", n, w.restarts);
 }
